@@ -131,7 +131,7 @@ def eventV1_eventV1_HistoryVisibility : List String := [
   "return \"\", fmt.Errorf(\"gomatrixserverlib: HistoryVisibility() event is not a m.room.history_visibility event, bad state key\")",
   "}",
   "var content HistoryVisibilityContent",
-  "if err := json.Unmarshal(e.eventFields.Content, &content); err != nil {",
+  "if err := json.Unmarshal(exactMembersOnly(e.eventFields.Content, &content), &content); err != nil {",
   "return \"\", err",
   "}",
   "return content.HistoryVisibility, nil"
@@ -157,7 +157,7 @@ def eventV1_eventV1_JoinRule : List String := [
   "return \"\", fmt.Errorf(\"gomatrixserverlib: JoinRule() event is not a m.room.join_rules event, bad state key\")",
   "}",
   "var content JoinRuleContent",
-  "if err := json.Unmarshal(e.eventFields.Content, &content); err != nil {",
+  "if err := json.Unmarshal(exactMembersOnly(e.eventFields.Content, &content), &content); err != nil {",
   "return \"\", err",
   "}",
   "return content.JoinRule, nil"
@@ -859,55 +859,8 @@ def event__checkUntrustedEventJSON : List String := [
 
 def event__duplicateJSONKey : List String := [
   "func func(data []byte) (name string, found bool)",
-  "var stack []map[string]struct{}",
-  "expectKey := false",
-  "for i := 0; i < len(data); i++ {",
-  "switch data[i] {",
-  "case '{':",
-  "stack = append(stack, map[string]struct{}{})",
-  "expectKey = true",
-  "case '[':",
-  "stack = append(stack, nil)",
-  "expectKey = false",
-  "case '}', ']':",
-  "if len(stack) == 0 {",
-  "return \"\", false",
-  "}",
-  "stack = stack[:len(stack)-1]",
-  "expectKey = false",
-  "case ',':",
-  "expectKey = len(stack) > 0 && stack[len(stack)-1] != nil",
-  "case '\"':",
-  "end, escaped := i+1, false",
-  "for ; end < len(data) && data[end] != '\"';  {",
-  "if data[end] == '\\\\' {",
-  "escaped = true",
-  "end++",
-  "}",
-  "end++",
-  "}",
-  "if end >= len(data) {",
-  "return \"\", false",
-  "}",
-  "if expectKey {",
-  "key := string(data[i+1 : end])",
-  "if escaped && json.Unmarshal(data[i:end+1], &key) != nil {",
-  "return \"\", false",
-  "}",
-  "names := stack[len(stack)-1]",
-  "if _, dup := names[key]; dup {",
-  "return key, true",
-  "}",
-  "names[key] = struct{}{}",
-  "expectKey = false",
-  "}",
-  "i = end",
-  "}",
-  "if len(stack) > maxJSONNestingDepth {",
-  "return \"\", false",
-  "}",
-  "}",
-  "return \"\", false"
+  "name, found, _ = jsonWalk{decodeName: func(raw []byte, escaped bool) (string, bool) { key := string(raw[1 : len(raw)-1]) if escaped && json.Unmarshal(raw, &key) != nil { return \"\", false } return key, true }}.duplicateName(data)",
+  "return name, found"
 ]
 
 def event__jsonFieldNames : List String := [
@@ -927,6 +880,76 @@ def event__jsonFieldNames : List String := [
   "}",
   "}",
   "return names"
+]
+
+def event_jsonWalk_duplicateName : List String := [
+  "func func(data []byte) (name string, found bool, err error)",
+  "var stack []map[string]struct{}",
+  "expectKey := false",
+  "skipping := false",
+  "for i := 0; i < len(data); i++ {",
+  "switch data[i] {",
+  "case '{':",
+  "if skipping {",
+  "stack = append(stack, nil)",
+  "break",
+  "}",
+  "stack = append(stack, map[string]struct{}{})",
+  "expectKey = true",
+  "case '[':",
+  "stack = append(stack, nil)",
+  "expectKey = false",
+  "case '}', ']':",
+  "if len(stack) == 0 {",
+  "return \"\", false, nil",
+  "}",
+  "stack = stack[:len(stack)-1]",
+  "expectKey = false",
+  "if len(stack) == 0 {",
+  "skipping = false",
+  "}",
+  "case ',':",
+  "if len(stack) == 1 {",
+  "skipping = false",
+  "}",
+  "expectKey = !skipping && len(stack) > 0 && stack[len(stack)-1] != nil",
+  "case '\"':",
+  "end, escaped := i+1, false",
+  "for ; end < len(data) && data[end] != '\"';  {",
+  "if data[end] == '\\\\' {",
+  "escaped = true",
+  "end++",
+  "}",
+  "end++",
+  "}",
+  "if end >= len(data) {",
+  "return \"\", false, nil",
+  "}",
+  "if !skipping && w.checkString != nil {",
+  "if err = w.checkString(data[i : end+1]); err != nil {",
+  "return \"\", false, err",
+  "}",
+  "}",
+  "if expectKey {",
+  "key, ok := w.decodeName(data[i:end+1], escaped)",
+  "if !ok {",
+  "return \"\", false, nil",
+  "}",
+  "names := stack[len(stack)-1]",
+  "if _, dup := names[key]; dup {",
+  "return key, true, nil",
+  "}",
+  "names[key] = struct{}{}",
+  "expectKey = false",
+  "skipping = len(stack) == 1 && w.skipMember != nil && w.skipMember(key)",
+  "}",
+  "i = end",
+  "}",
+  "if len(stack) > maxJSONNestingDepth {",
+  "return \"\", false, nil",
+  "}",
+  "}",
+  "return \"\", false, nil"
 ]
 
 def eventauth_AuthEvents_AddEvent : List String := [
@@ -1214,7 +1237,7 @@ def eventauth__checkPowerLevelEventV2 : List String := [
 def eventauth__checkPowerLevelEventV3 : List String := [
   "func func(sender string, createEvent PDU, oldPowerLevels, newPowerLevels PowerLevelContent) error",
   "var content CreateContent",
-  "if err := json.Unmarshal(createEvent.Content(), &content); err != nil {",
+  "if err := json.Unmarshal(exactMembersOnly(createEvent.Content(), &content), &content); err != nil {",
   "return errorf(\"checkPowerLevelEventV3 unparseable create event content: %s\", err.Error())",
   "}",
   "creators := []string{string(createEvent.SenderID())}",
@@ -1300,6 +1323,9 @@ def eventauth_allowerContext_aliasEventAllowed : List String := [
   "if err != nil {",
   "return err",
   "}",
+  "if sender == nil {",
+  "return errorf(\"userID not found for sender %q in room %q\", event.SenderID(), event.RoomID().String())",
+  "}",
   "if event.RoomID().String() != a.create.roomID {",
   "return errorf(\"create event has different roomID: %q (%s) != %q (%s)\", event.RoomID().String(), event.EventID(), a.create.roomID, a.create.eventID)",
   "}",
@@ -1359,6 +1385,9 @@ def eventauth_allowerContext_createEventAllowed : List String := [
   "sender, err := a.userIDQuerier(a.roomID, event.SenderID())",
   "if err != nil {",
   "return err",
+  "}",
+  "if sender == nil {",
+  "return errorf(\"userID not found for sender %q in room %q\", event.SenderID(), event.RoomID().String())",
   "}",
   "verImpl, err := GetRoomVersion(event.Version())",
   "if err != nil {",
@@ -1910,7 +1939,7 @@ def eventcontent__CreatorsFromCreateEvent : List String := [
   "func func(createEvent PDU) (creators []string)",
   "creators = append(creators, string(createEvent.SenderID()))",
   "var content CreateContent",
-  "err := json.Unmarshal(createEvent.Content(), &content)",
+  "err := json.Unmarshal(exactMembersOnly(createEvent.Content(), &content), &content)",
   "if err != nil {",
   "panic(\"invalid create event content: \" + string(createEvent.JSON()))",
   "}",
@@ -1928,7 +1957,7 @@ def eventcontent__NewCreateContentFromAuthEvents : List String := [
   "err = errorf(\"missing create event\")",
   "return",
   "}",
-  "if err = json.Unmarshal(createEvent.Content(), &c); err != nil {",
+  "if err = json.Unmarshal(exactMembersOnly(createEvent.Content(), &c), &c); err != nil {",
   "err = errorf(\"unparseable create event content: %s\", err.Error())",
   "return",
   "}",
@@ -1957,7 +1986,7 @@ def eventcontent__NewJoinRuleContentFromAuthEvents : List String := [
   "if joinRulesEvent == nil {",
   "return",
   "}",
-  "if err = json.Unmarshal(joinRulesEvent.Content(), &c); err != nil {",
+  "if err = json.Unmarshal(exactMembersOnly(joinRulesEvent.Content(), &c), &c); err != nil {",
   "err = errorf(\"unparseable join_rules event content: %s\", err.Error())",
   "return",
   "}",
@@ -2037,7 +2066,7 @@ def eventcontent__NewThirdPartyInviteContentFromAuthEvents : List String := [
   "err = errorf(\"Couldn't find third party invite event\")",
   "return",
   "}",
-  "if err = json.Unmarshal(thirdPartyInviteEvent.Content(), &t); err != nil {",
+  "if err = json.Unmarshal(exactMembersOnly(thirdPartyInviteEvent.Content(), &t), &t); err != nil {",
   "err = errorf(\"unparseable third party invite event content: %s\", err.Error())",
   "}",
   "return"
@@ -2049,7 +2078,7 @@ def eventcontent__checkCreateEventV1 : List String := [
   "return errorf(\"create event room ID domain does not match sender: %q != %q\", event.RoomID().Domain(), sender.String())",
   "}",
   "c := struct { Creator *string `json:\"creator\"` RoomVersion *RoomVersion `json:\"room_version\"` }{}",
-  "if err := json.Unmarshal(event.Content(), &c); err != nil {",
+  "if err := json.Unmarshal(exactMembersOnly(event.Content(), &c), &c); err != nil {",
   "return errorf(\"create event has invalid content: %s\", err.Error())",
   "}",
   "if c.Creator == nil {",
@@ -2069,7 +2098,7 @@ def eventcontent__checkCreateEventV2 : List String := [
   "return errorf(\"create event room ID domain does not match sender: %q != %q\", event.RoomID().Domain(), sender.String())",
   "}",
   "c := struct { RoomVersion *RoomVersion `json:\"room_version\"` }{}",
-  "if err := json.Unmarshal(event.Content(), &c); err != nil {",
+  "if err := json.Unmarshal(exactMembersOnly(event.Content(), &c), &c); err != nil {",
   "return errorf(\"create event has invalid content: %s\", err.Error())",
   "}",
   "if c.RoomVersion != nil {",
@@ -2083,7 +2112,7 @@ def eventcontent__checkCreateEventV2 : List String := [
 def eventcontent__checkCreateEventV3 : List String := [
   "func func(event PDU, sender spec.UserID, knownRoomVersion KnownRoomVersionFunc) error",
   "c := struct { RoomVersion *RoomVersion `json:\"room_version\"` AdditionalCreators []string `json:\"additional_creators\"` }{}",
-  "if err := json.Unmarshal(event.Content(), &c); err != nil {",
+  "if err := json.Unmarshal(exactMembersOnly(event.Content(), &c), &c); err != nil {",
   "return errorf(\"create event has invalid content: %s\", err.Error())",
   "}",
   "if c.RoomVersion != nil {",
@@ -2125,6 +2154,7 @@ def eventcontent__isValidUserID : List String := [
 
 def eventcontent__parseIntegerPowerLevels : List String := [
   "func func(contentBytes []byte, c *PowerLevelContent) error",
+  "contentBytes = exactMembersOnly(contentBytes, c)",
   "var nulls struct { Ban notNullLevel `json:\"ban\"` Invite notNullLevel `json:\"invite\"` Kick notNullLevel `json:\"kick\"` Redact notNullLevel `json:\"redact\"` Users notNullLevels `json:\"users\"` UsersDefault notNullLevel `json:\"users_default\"` Events notNullLevels `json:\"events\"` EventsDefault notNullLevel `json:\"events_default\"` StateDefault notNullLevel `json:\"state_default\"` Notifications notNullLevels `json:\"notifications\"` }",
   "if err := json.Unmarshal(contentBytes, &nulls); err != nil {",
   "return err",
@@ -2134,6 +2164,7 @@ def eventcontent__parseIntegerPowerLevels : List String := [
 
 def eventcontent__parsePowerLevels : List String := [
   "func func(contentBytes []byte, c *PowerLevelContent) error",
+  "contentBytes = exactMembersOnly(contentBytes, c)",
   "var content struct { InviteLevel levelJSONValue `json:\"invite\"` BanLevel levelJSONValue `json:\"ban\"` KickLevel levelJSONValue `json:\"kick\"` RedactLevel levelJSONValue `json:\"redact\"` UserLevels map[string]levelJSONValue `json:\"users\"` UsersDefaultLevel levelJSONValue `json:\"users_default\"` EventLevels map[string]levelJSONValue `json:\"events\"` StateDefaultLevel levelJSONValue `json:\"state_default\"` EventDefaultLevel levelJSONValue `json:\"events_default\"` NotificationLevels map[string]levelJSONValue `json:\"notifications\"` }",
   "if err := json.Unmarshal(contentBytes, &content); err != nil {",
   "return errorf(\"unparseable power_levels event content: %s\", err.Error())",
@@ -3528,7 +3559,7 @@ def signing__ListKeyIDs : List String := [
 def signing__SignJSON : List String := [
   "func func(signingName string, keyID KeyID, privateKey ed25519.PrivateKey, message []byte) (signed []byte, err error)",
   "preserve := struct { Signatures map[string]map[KeyID]spec.Base64Bytes `json:\"signatures\"` Unsigned spec.RawJSON `json:\"unsigned\"` }{Signatures: map[string]map[KeyID]spec.Base64Bytes{}}",
-  "if err = checkStrictJSON(message, false); err != nil {",
+  "if err = checkStrictJSON(message, false, false); err != nil {",
   "return nil, err",
   "}",
   "var object map[string]json.RawMessage",
@@ -3582,7 +3613,7 @@ def signing__VerifyJSON : List String := [
   "func func(signingName string, keyID KeyID, publicKey ed25519.PublicKey, message []byte) error",
   "var object map[string]*json.RawMessage",
   "var signatures map[string]map[KeyID]spec.Base64Bytes",
-  "if err := checkStrictJSON(message, true); err != nil {",
+  "if err := checkStrictJSON(message, true, true); err != nil {",
   "return err",
   "}",
   "if err := json.Unmarshal(message, &object); err != nil {",
@@ -3621,11 +3652,22 @@ def signing__VerifyJSON : List String := [
 ]
 
 def signing__checkStrictJSON : List String := [
-  "func func(message []byte, requireUTF8 bool) error",
-  "if !gjson.ValidBytes(message) {",
+  "func func(message []byte, requireUTF8, skipUnsigned bool) error",
+  "if !json.Valid(message) || !gjson.ValidBytes(message) {",
   "return fmt.Errorf(\"gomatrixserverlib: invalid JSON\")",
   "}",
-  "return checkStrictValue(gjson.ParseBytes(message), requireUTF8)"
+  "walk := jsonWalk{decodeName: func(raw []byte, escaped bool) (string, bool) { if !escaped { return string(raw[1 : len(raw)-1]), true } return gjson.ParseBytes(raw).Str, true }, checkString: func(raw []byte) error { return checkStrictString(string(raw), requireUTF8) }}",
+  "if skipUnsigned {",
+  "walk.skipMember = func(name string) bool { return name == \"unsigned\" }",
+  "}",
+  "name, duplicate, err := walk.duplicateName(message)",
+  "if err != nil {",
+  "return err",
+  "}",
+  "if duplicate {",
+  "return fmt.Errorf(\"gomatrixserverlib: duplicate object member %q\", name)",
+  "}",
+  "return nil"
 ]
 
 def signing__checkStrictString : List String := [
@@ -3652,20 +3694,6 @@ def signing__checkStrictString : List String := [
   "i += 6",
   "}",
   "return nil"
-]
-
-def signing__checkStrictValue : List String := [
-  "func func(value gjson.Result, requireUTF8 bool) (err error)",
-  "switch {",
-  "case value.Type == gjson.String:",
-  "return checkStrictString(value.Raw, requireUTF8)",
-  "case value.IsObject():",
-  "names := make(map[string]struct{})",
-  "value.ForEach(func(name, member gjson.Result) bool { if err = checkStrictString(name.Raw, requireUTF8); err != nil { return false } if _, duplicate := names[name.Str]; duplicate { err = fmt.Errorf(\"gomatrixserverlib: duplicate object member %q\", name.Str) return false } names[name.Str] = struct{}{} err = checkStrictValue(member, requireUTF8) return err == nil })",
-  "case value.IsArray():",
-  "value.ForEach(func(_, element gjson.Result) bool { err = checkStrictValue(element, requireUTF8) return err == nil })",
-  "}",
-  "return err"
 ]
 
 def spec_senderid_SenderID_IsPseudoID : List String := [
@@ -3928,7 +3956,7 @@ def stateresolutionv2__creatorsFromCreateEventOrNone : List String := [
   "func func(createEvent PDU) []string",
   "creators := []string{string(createEvent.SenderID())}",
   "var content CreateContent",
-  "if err := json.Unmarshal(createEvent.Content(), &content); err != nil {",
+  "if err := json.Unmarshal(exactMembersOnly(createEvent.Content(), &content), &content); err != nil {",
   "return creators",
   "}",
   "return append(creators, content.AdditionalCreators...)"
@@ -4370,6 +4398,6 @@ def stateresolutionv2_stateResolverV2_wrapPowerLevelEventsForSort : List String 
   "return block"
 ]
 
-def functions : List String := ["eventV1.go:.newEventFromTrustedJSONV1", "eventV1.go:.newEventFromTrustedJSONWithEventIDV1", "eventV1.go:.newEventFromUntrustedJSONV1", "eventV1.go:.signableEventJSON", "eventV1.go:eventV1.AuthEventIDs", "eventV1.go:eventV1.Content", "eventV1.go:eventV1.Depth", "eventV1.go:eventV1.EventID", "eventV1.go:eventV1.HistoryVisibility", "eventV1.go:eventV1.IsSticky", "eventV1.go:eventV1.JSON", "eventV1.go:eventV1.JoinRule", "eventV1.go:eventV1.MarshalJSON", "eventV1.go:eventV1.Membership", "eventV1.go:eventV1.OriginServerTS", "eventV1.go:eventV1.PowerLevels", "eventV1.go:eventV1.PrevEventIDs", "eventV1.go:eventV1.Redact", "eventV1.go:eventV1.Redacted", "eventV1.go:eventV1.Redacts", "eventV1.go:eventV1.RoomID", "eventV1.go:eventV1.SenderID", "eventV1.go:eventV1.SetUnsigned", "eventV1.go:eventV1.SetUnsignedField", "eventV1.go:eventV1.Sign", "eventV1.go:eventV1.StateKey", "eventV1.go:eventV1.StateKeyEquals", "eventV1.go:eventV1.StickyEndTime", "eventV1.go:eventV1.ToHeaderedJSON", "eventV1.go:eventV1.Type", "eventV1.go:eventV1.Unsigned", "eventV1.go:eventV1.Version", "eventV1.go:eventV1.assumedStickyStartTime", "eventV1.go:eventV1.calculatedStickyEndTime", "eventV2.go:.CheckFields", "eventV2.go:.newEventFromTrustedJSONV2", "eventV2.go:.newEventFromTrustedJSONWithEventIDV2", "eventV2.go:.newEventFromUntrustedJSONV2", "eventV2.go:eventV2.AuthEventIDs", "eventV2.go:eventV2.EventID", "eventV2.go:eventV2.MarshalJSON", "eventV2.go:eventV2.PrevEventIDs", "eventV2.go:eventV2.Redact", "eventV2.go:eventV2.SenderID", "eventV2.go:eventV2.SetUnsigned", "eventV2.go:eventV2.Sign", "eventV2.go:eventV2.populateEventID", "eventV3.go:.checkRoomID", "eventV3.go:.newEventFromTrustedJSONV3", "eventV3.go:.newEventFromTrustedJSONWithEventIDV3", "eventV3.go:.newEventFromUntrustedJSONV3", "eventV3.go:eventV3.AuthEventIDs", "eventV3.go:eventV3.RoomID", "eventV3.go:eventV3.SetUnsigned", "eventV3.go:eventV3.Sign", "event.go:EventValidationError.Error", "event.go:.SplitID", "event.go:.checkID", "event.go:.checkRoomIDField", "event.go:.checkUntrustedEventJSON", "event.go:.duplicateJSONKey", "event.go:.jsonFieldNames", "eventauth.go:AuthEvents.AddEvent", "eventauth.go:AuthEvents.Clear", "eventauth.go:AuthEvents.Create", "eventauth.go:AuthEvents.JoinRules", "eventauth.go:AuthEvents.Member", "eventauth.go:AuthEvents.PowerLevels", "eventauth.go:AuthEvents.ThirdPartyInvite", "eventauth.go:AuthEvents.Valid", "eventauth.go:NotAllowed.Error", "eventauth.go:StateNeeded.AuthEventReferences", "eventauth.go:StateNeeded.Tuples", "eventauth.go:.Allowed", "eventauth.go:.NewAuthEvents", "eventauth.go:.StateNeededForAuth", "eventauth.go:.StateNeededForProtoEvent", "eventauth.go:.accumulateStateNeeded", "eventauth.go:.allowRestrictedJoins", "eventauth.go:.checkEventLevels", "eventauth.go:.checkKnocking", "eventauth.go:.checkNotificationLevels", "eventauth.go:.checkPowerLevelEventV1", "eventauth.go:.checkPowerLevelEventV2", "eventauth.go:.checkPowerLevelEventV3", "eventauth.go:.checkUserLevels", "eventauth.go:.disallowKnocking", "eventauth.go:.disallowRestrictedJoins", "eventauth.go:.errorf", "eventauth.go:.newAllowerContext", "eventauth.go:.thirdPartyInviteToken", "eventauth.go:allowerContext.aliasEventAllowed", "eventauth.go:allowerContext.allowed", "eventauth.go:allowerContext.createEventAllowed", "eventauth.go:allowerContext.defaultEventAllowed", "eventauth.go:allowerContext.memberEventAllowed", "eventauth.go:allowerContext.newEventAllower", "eventauth.go:allowerContext.newMembershipAllower", "eventauth.go:allowerContext.powerLevelsEventAllowed", "eventauth.go:allowerContext.redactEventAllowed", "eventauth.go:allowerContext.resetCreate", "eventauth.go:allowerContext.update", "eventauth.go:allowerContext.userPowerLevel", "eventauth.go:eventAllower.commonChecks", "eventauth.go:membershipAllower.membershipAllowed", "eventauth.go:membershipAllower.membershipAllowedFromThirdPartyInvite", "eventauth.go:membershipAllower.membershipAllowedOther", "eventauth.go:membershipAllower.membershipAllowedSelf", "eventauth.go:membershipAllower.membershipAllowedSelfForRestrictedJoin", "eventauth.go:membershipAllower.membershipFailed", "eventcontent.go:CreateContent.DomainAllowed", "eventcontent.go:CreateContent.UserIDAllowed", "eventcontent.go:HistoryVisibility.Scan", "eventcontent.go:HistoryVisibility.Value", "eventcontent.go:MXIDMapping.Sign", "eventcontent.go:PowerLevelContent.Defaults", "eventcontent.go:PowerLevelContent.EventLevel", "eventcontent.go:PowerLevelContent.NotificationLevel", "eventcontent.go:PowerLevelContent.UserLevel", "eventcontent.go:.CreatorsFromCreateEvent", "eventcontent.go:.NewCreateContentFromAuthEvents", "eventcontent.go:.NewJoinRuleContentFromAuthEvents", "eventcontent.go:.NewMemberContentFromAuthEvents", "eventcontent.go:.NewMemberContentFromEvent", "eventcontent.go:.NewPowerLevelContentFromAuthEvents", "eventcontent.go:.NewPowerLevelContentFromEvent", "eventcontent.go:.NewThirdPartyInviteContentFromAuthEvents", "eventcontent.go:.checkCreateEventV1", "eventcontent.go:.checkCreateEventV2", "eventcontent.go:.checkCreateEventV3", "eventcontent.go:.domainFromID", "eventcontent.go:.isValidUserID", "eventcontent.go:.parseIntegerPowerLevels", "eventcontent.go:.parsePowerLevels", "eventcontent.go:levelJSONValue.UnmarshalJSON", "eventcontent.go:levelJSONValue.assignIfExists", "eventcontent.go:notNullLevel.UnmarshalJSON", "eventcontent.go:notNullLevels.UnmarshalJSON", "eventcrypto.go:.VerifyAllEventSignatures", "eventcrypto.go:.VerifyEventSignatures", "eventcrypto.go:.addContentHashesToEvent", "eventcrypto.go:.checkEventContentHash", "eventcrypto.go:.emptyAuthorisedViaServerName", "eventcrypto.go:.extractAuthorisedViaServerName", "eventcrypto.go:.getMXIDMapping", "eventcrypto.go:.membershipForSignatures", "eventcrypto.go:.referenceOfEvent", "eventcrypto.go:.referenceOfEventForVersion", "eventcrypto.go:.signEvent", "eventcrypto.go:.validateMXIDMappingSignatures", "eventversion.go:RoomVersionImpl.CheckCanonicalJSON", "eventversion.go:RoomVersionImpl.CheckCreateEvent", "eventversion.go:RoomVersionImpl.CheckKnockingAllowed", "eventversion.go:RoomVersionImpl.CheckPowerLevelEvent", "eventversion.go:RoomVersionImpl.CheckRestrictedJoin", "eventversion.go:RoomVersionImpl.CheckRestrictedJoinsAllowed", "eventversion.go:RoomVersionImpl.DomainlessRoomIDs", "eventversion.go:RoomVersionImpl.EventFormat", "eventversion.go:RoomVersionImpl.EventIDFormat", "eventversion.go:RoomVersionImpl.NewEventBuilder", "eventversion.go:RoomVersionImpl.NewEventBuilderFromProtoEvent", "eventversion.go:RoomVersionImpl.NewEventFromTrustedJSON", "eventversion.go:RoomVersionImpl.NewEventFromTrustedJSONWithEventID", "eventversion.go:RoomVersionImpl.NewEventFromUntrustedJSON", "eventversion.go:RoomVersionImpl.ParsePowerLevels", "eventversion.go:RoomVersionImpl.PrivilegedCreators", "eventversion.go:RoomVersionImpl.RedactEventJSON", "eventversion.go:RoomVersionImpl.RestrictedJoinServername", "eventversion.go:RoomVersionImpl.SignatureValidityCheck", "eventversion.go:RoomVersionImpl.Stable", "eventversion.go:RoomVersionImpl.StateResAlgorithm", "eventversion.go:RoomVersionImpl.Version", "eventversion.go:UnsupportedRoomVersionError.Error", "eventversion.go:.GetRoomVersion", "eventversion.go:.KnownRoomVersion", "eventversion.go:.MustGetRoomVersion", "eventversion.go:.NewEventFromHeaderedJSON", "eventversion.go:.RoomVersions", "eventversion.go:.SetRoomVersion", "eventversion.go:.StableRoomVersion", "eventversion.go:.StableRoomVersions", "fclient/federationtypes.go:DeviceKeys.Scan", "fclient/federationtypes.go:DeviceKeys.Value", "fclient/federationtypes.go:DeviceKeys.isCrossSigningBody", "fclient/federationtypes.go:MSC2836EventRelationshipsRequest.Defaults", "fclient/federationtypes.go:RespInvite.MarshalJSON", "fclient/federationtypes.go:RespInvite.UnmarshalJSON", "fclient/federationtypes.go:RespMakeJoin.GetJoinEvent", "fclient/federationtypes.go:RespMakeJoin.GetRoomVersion", "fclient/federationtypes.go:RespPeek.GetAuthEvents", "fclient/federationtypes.go:RespPeek.GetStateEvents", "fclient/federationtypes.go:RespPeek.MarshalJSON", "fclient/federationtypes.go:RespSendJoin.GetAuthEvents", "fclient/federationtypes.go:RespSendJoin.GetJoinEvent", "fclient/federationtypes.go:RespSendJoin.GetMembersOmitted", "fclient/federationtypes.go:RespSendJoin.GetOrigin", "fclient/federationtypes.go:RespSendJoin.GetServersInRoom", "fclient/federationtypes.go:RespSendJoin.GetStateEvents", "fclient/federationtypes.go:RespSendJoin.MarshalJSON", "fclient/federationtypes.go:RespStateIDs.GetAuthEventIDs", "fclient/federationtypes.go:RespStateIDs.GetStateEventIDs", "fclient/federationtypes.go:RespState.GetAuthEvents", "fclient/federationtypes.go:RespState.GetStateEvents", "fclient/federationtypes.go:RespState.MarshalJSON", "fclient/federationtypes.go:RespUserDevices.UnmarshalJSON", "fclient/federationtypes.go:.NewMSC2836EventRelationshipsRequest", "fclient/request.go:FederationRequest.Content", "fclient/request.go:FederationRequest.Destination", "fclient/request.go:FederationRequest.HTTPRequest", "fclient/request.go:FederationRequest.Method", "fclient/request.go:FederationRequest.Origin", "fclient/request.go:FederationRequest.RequestURI", "fclient/request.go:FederationRequest.SetContent", "fclient/request.go:FederationRequest.Sign", "fclient/request.go:FederationRequest.checkFieldsUTF8", "fclient/request.go:.NewFederationRequest", "fclient/request.go:.ParseAuthorization", "fclient/request.go:.VerifyHTTPRequest", "fclient/request.go:.isSafeInHTTPQuotedString", "fclient/request.go:.readHTTPRequest", "json.go:EventJSONs.TrustedEvents", "json.go:EventJSONs.UntrustedEvents", "json.go:.CanonicalJSON", "json.go:.CanonicalJSONAssumeValid", "json.go:.CompactJSON", "json.go:.EnforcedCanonicalJSON", "json.go:.NewEventJSONsFromEvents", "json.go:.SortJSON", "json.go:.compactUnicodeEscape", "json.go:.isNegativeZeroLiteral", "json.go:.noVerifyCanonicalJSON", "json.go:.readHexDigits", "json.go:.sortJSONArray", "json.go:.sortJSONObject", "json.go:.sortJSONValue", "json.go:.verifyEnforcedCanonicalJSON", "keys.go:ServerKeys.MarshalJSON", "keys.go:ServerKeys.PublicKey", "keys.go:ServerKeys.UnmarshalJSON", "keys.go:.CheckKeys", "keys.go:.checkVerifyKeys", "signing.go:.ListKeyIDs", "signing.go:.SignJSON", "signing.go:.VerifyJSON", "signing.go:.checkStrictJSON", "signing.go:.checkStrictString", "signing.go:.checkStrictValue", "spec/senderid.go:SenderID.IsPseudoID", "spec/senderid.go:SenderID.IsUserID", "spec/senderid.go:SenderID.RawBytes", "spec/senderid.go:SenderID.ToPseudoID", "spec/senderid.go:SenderID.ToUserID", "spec/senderid.go:.SenderIDFromPseudoIDKey", "spec/senderid.go:.SenderIDFromUserID", "stateresolutionv2.go:.HeaderedReverseTopologicalOrdering", "stateresolutionv2.go:.ResolveStateConflictsV2", "stateresolutionv2.go:.ResolveStateConflictsV2New", "stateresolutionv2.go:.ReverseTopologicalOrdering", "stateresolutionv2.go:.creatorsFromCreateEventOrNone", "stateresolutionv2.go:.eventMapFromEvents", "stateresolutionv2.go:.getCreateEvent", "stateresolutionv2.go:.isControlEvent", "stateresolutionv2.go:.kahnsAlgorithmUsingAuthEvents", "stateresolutionv2.go:.kahnsAlgorithmUsingPrevEvents", "stateresolutionv2.go:.newPDUSet", "stateresolutionv2.go:stateResolverV2.applyEvents", "stateresolutionv2.go:stateResolverV2.authAndApplyEvents", "stateresolutionv2.go:stateResolverV2.calculateAuthDifference", "stateresolutionv2.go:stateResolverV2.calculateAuthDifferenceNew", "stateresolutionv2.go:stateResolverV2.calculateFullAuthChainAndConflictedSubgraph", "stateresolutionv2.go:stateResolverV2.createPowerLevelMainline", "stateresolutionv2.go:stateResolverV2.getFirstPowerLevelMainlineEvent", "stateresolutionv2.go:stateResolverV2.getPowerLevelFromAuthEvents", "stateresolutionv2.go:stateResolverV2.mainlineOrdering", "stateresolutionv2.go:stateResolverV2.reverseTopologicalOrdering", "stateresolutionv2.go:stateResolverV2.wrapOtherEventsForSort", "stateresolutionv2.go:stateResolverV2.wrapPowerLevelEventsForSort"]
+def functions : List String := ["eventV1.go:.newEventFromTrustedJSONV1", "eventV1.go:.newEventFromTrustedJSONWithEventIDV1", "eventV1.go:.newEventFromUntrustedJSONV1", "eventV1.go:.signableEventJSON", "eventV1.go:eventV1.AuthEventIDs", "eventV1.go:eventV1.Content", "eventV1.go:eventV1.Depth", "eventV1.go:eventV1.EventID", "eventV1.go:eventV1.HistoryVisibility", "eventV1.go:eventV1.IsSticky", "eventV1.go:eventV1.JSON", "eventV1.go:eventV1.JoinRule", "eventV1.go:eventV1.MarshalJSON", "eventV1.go:eventV1.Membership", "eventV1.go:eventV1.OriginServerTS", "eventV1.go:eventV1.PowerLevels", "eventV1.go:eventV1.PrevEventIDs", "eventV1.go:eventV1.Redact", "eventV1.go:eventV1.Redacted", "eventV1.go:eventV1.Redacts", "eventV1.go:eventV1.RoomID", "eventV1.go:eventV1.SenderID", "eventV1.go:eventV1.SetUnsigned", "eventV1.go:eventV1.SetUnsignedField", "eventV1.go:eventV1.Sign", "eventV1.go:eventV1.StateKey", "eventV1.go:eventV1.StateKeyEquals", "eventV1.go:eventV1.StickyEndTime", "eventV1.go:eventV1.ToHeaderedJSON", "eventV1.go:eventV1.Type", "eventV1.go:eventV1.Unsigned", "eventV1.go:eventV1.Version", "eventV1.go:eventV1.assumedStickyStartTime", "eventV1.go:eventV1.calculatedStickyEndTime", "eventV2.go:.CheckFields", "eventV2.go:.newEventFromTrustedJSONV2", "eventV2.go:.newEventFromTrustedJSONWithEventIDV2", "eventV2.go:.newEventFromUntrustedJSONV2", "eventV2.go:eventV2.AuthEventIDs", "eventV2.go:eventV2.EventID", "eventV2.go:eventV2.MarshalJSON", "eventV2.go:eventV2.PrevEventIDs", "eventV2.go:eventV2.Redact", "eventV2.go:eventV2.SenderID", "eventV2.go:eventV2.SetUnsigned", "eventV2.go:eventV2.Sign", "eventV2.go:eventV2.populateEventID", "eventV3.go:.checkRoomID", "eventV3.go:.newEventFromTrustedJSONV3", "eventV3.go:.newEventFromTrustedJSONWithEventIDV3", "eventV3.go:.newEventFromUntrustedJSONV3", "eventV3.go:eventV3.AuthEventIDs", "eventV3.go:eventV3.RoomID", "eventV3.go:eventV3.SetUnsigned", "eventV3.go:eventV3.Sign", "event.go:EventValidationError.Error", "event.go:.SplitID", "event.go:.checkID", "event.go:.checkRoomIDField", "event.go:.checkUntrustedEventJSON", "event.go:.duplicateJSONKey", "event.go:.jsonFieldNames", "event.go:jsonWalk.duplicateName", "eventauth.go:AuthEvents.AddEvent", "eventauth.go:AuthEvents.Clear", "eventauth.go:AuthEvents.Create", "eventauth.go:AuthEvents.JoinRules", "eventauth.go:AuthEvents.Member", "eventauth.go:AuthEvents.PowerLevels", "eventauth.go:AuthEvents.ThirdPartyInvite", "eventauth.go:AuthEvents.Valid", "eventauth.go:NotAllowed.Error", "eventauth.go:StateNeeded.AuthEventReferences", "eventauth.go:StateNeeded.Tuples", "eventauth.go:.Allowed", "eventauth.go:.NewAuthEvents", "eventauth.go:.StateNeededForAuth", "eventauth.go:.StateNeededForProtoEvent", "eventauth.go:.accumulateStateNeeded", "eventauth.go:.allowRestrictedJoins", "eventauth.go:.checkEventLevels", "eventauth.go:.checkKnocking", "eventauth.go:.checkNotificationLevels", "eventauth.go:.checkPowerLevelEventV1", "eventauth.go:.checkPowerLevelEventV2", "eventauth.go:.checkPowerLevelEventV3", "eventauth.go:.checkUserLevels", "eventauth.go:.disallowKnocking", "eventauth.go:.disallowRestrictedJoins", "eventauth.go:.errorf", "eventauth.go:.newAllowerContext", "eventauth.go:.thirdPartyInviteToken", "eventauth.go:allowerContext.aliasEventAllowed", "eventauth.go:allowerContext.allowed", "eventauth.go:allowerContext.createEventAllowed", "eventauth.go:allowerContext.defaultEventAllowed", "eventauth.go:allowerContext.memberEventAllowed", "eventauth.go:allowerContext.newEventAllower", "eventauth.go:allowerContext.newMembershipAllower", "eventauth.go:allowerContext.powerLevelsEventAllowed", "eventauth.go:allowerContext.redactEventAllowed", "eventauth.go:allowerContext.resetCreate", "eventauth.go:allowerContext.update", "eventauth.go:allowerContext.userPowerLevel", "eventauth.go:eventAllower.commonChecks", "eventauth.go:membershipAllower.membershipAllowed", "eventauth.go:membershipAllower.membershipAllowedFromThirdPartyInvite", "eventauth.go:membershipAllower.membershipAllowedOther", "eventauth.go:membershipAllower.membershipAllowedSelf", "eventauth.go:membershipAllower.membershipAllowedSelfForRestrictedJoin", "eventauth.go:membershipAllower.membershipFailed", "eventcontent.go:CreateContent.DomainAllowed", "eventcontent.go:CreateContent.UserIDAllowed", "eventcontent.go:HistoryVisibility.Scan", "eventcontent.go:HistoryVisibility.Value", "eventcontent.go:MXIDMapping.Sign", "eventcontent.go:PowerLevelContent.Defaults", "eventcontent.go:PowerLevelContent.EventLevel", "eventcontent.go:PowerLevelContent.NotificationLevel", "eventcontent.go:PowerLevelContent.UserLevel", "eventcontent.go:.CreatorsFromCreateEvent", "eventcontent.go:.NewCreateContentFromAuthEvents", "eventcontent.go:.NewJoinRuleContentFromAuthEvents", "eventcontent.go:.NewMemberContentFromAuthEvents", "eventcontent.go:.NewMemberContentFromEvent", "eventcontent.go:.NewPowerLevelContentFromAuthEvents", "eventcontent.go:.NewPowerLevelContentFromEvent", "eventcontent.go:.NewThirdPartyInviteContentFromAuthEvents", "eventcontent.go:.checkCreateEventV1", "eventcontent.go:.checkCreateEventV2", "eventcontent.go:.checkCreateEventV3", "eventcontent.go:.domainFromID", "eventcontent.go:.isValidUserID", "eventcontent.go:.parseIntegerPowerLevels", "eventcontent.go:.parsePowerLevels", "eventcontent.go:levelJSONValue.UnmarshalJSON", "eventcontent.go:levelJSONValue.assignIfExists", "eventcontent.go:notNullLevel.UnmarshalJSON", "eventcontent.go:notNullLevels.UnmarshalJSON", "eventcrypto.go:.VerifyAllEventSignatures", "eventcrypto.go:.VerifyEventSignatures", "eventcrypto.go:.addContentHashesToEvent", "eventcrypto.go:.checkEventContentHash", "eventcrypto.go:.emptyAuthorisedViaServerName", "eventcrypto.go:.extractAuthorisedViaServerName", "eventcrypto.go:.getMXIDMapping", "eventcrypto.go:.membershipForSignatures", "eventcrypto.go:.referenceOfEvent", "eventcrypto.go:.referenceOfEventForVersion", "eventcrypto.go:.signEvent", "eventcrypto.go:.validateMXIDMappingSignatures", "eventversion.go:RoomVersionImpl.CheckCanonicalJSON", "eventversion.go:RoomVersionImpl.CheckCreateEvent", "eventversion.go:RoomVersionImpl.CheckKnockingAllowed", "eventversion.go:RoomVersionImpl.CheckPowerLevelEvent", "eventversion.go:RoomVersionImpl.CheckRestrictedJoin", "eventversion.go:RoomVersionImpl.CheckRestrictedJoinsAllowed", "eventversion.go:RoomVersionImpl.DomainlessRoomIDs", "eventversion.go:RoomVersionImpl.EventFormat", "eventversion.go:RoomVersionImpl.EventIDFormat", "eventversion.go:RoomVersionImpl.NewEventBuilder", "eventversion.go:RoomVersionImpl.NewEventBuilderFromProtoEvent", "eventversion.go:RoomVersionImpl.NewEventFromTrustedJSON", "eventversion.go:RoomVersionImpl.NewEventFromTrustedJSONWithEventID", "eventversion.go:RoomVersionImpl.NewEventFromUntrustedJSON", "eventversion.go:RoomVersionImpl.ParsePowerLevels", "eventversion.go:RoomVersionImpl.PrivilegedCreators", "eventversion.go:RoomVersionImpl.RedactEventJSON", "eventversion.go:RoomVersionImpl.RestrictedJoinServername", "eventversion.go:RoomVersionImpl.SignatureValidityCheck", "eventversion.go:RoomVersionImpl.Stable", "eventversion.go:RoomVersionImpl.StateResAlgorithm", "eventversion.go:RoomVersionImpl.Version", "eventversion.go:UnsupportedRoomVersionError.Error", "eventversion.go:.GetRoomVersion", "eventversion.go:.KnownRoomVersion", "eventversion.go:.MustGetRoomVersion", "eventversion.go:.NewEventFromHeaderedJSON", "eventversion.go:.RoomVersions", "eventversion.go:.SetRoomVersion", "eventversion.go:.StableRoomVersion", "eventversion.go:.StableRoomVersions", "fclient/federationtypes.go:DeviceKeys.Scan", "fclient/federationtypes.go:DeviceKeys.Value", "fclient/federationtypes.go:DeviceKeys.isCrossSigningBody", "fclient/federationtypes.go:MSC2836EventRelationshipsRequest.Defaults", "fclient/federationtypes.go:RespInvite.MarshalJSON", "fclient/federationtypes.go:RespInvite.UnmarshalJSON", "fclient/federationtypes.go:RespMakeJoin.GetJoinEvent", "fclient/federationtypes.go:RespMakeJoin.GetRoomVersion", "fclient/federationtypes.go:RespPeek.GetAuthEvents", "fclient/federationtypes.go:RespPeek.GetStateEvents", "fclient/federationtypes.go:RespPeek.MarshalJSON", "fclient/federationtypes.go:RespSendJoin.GetAuthEvents", "fclient/federationtypes.go:RespSendJoin.GetJoinEvent", "fclient/federationtypes.go:RespSendJoin.GetMembersOmitted", "fclient/federationtypes.go:RespSendJoin.GetOrigin", "fclient/federationtypes.go:RespSendJoin.GetServersInRoom", "fclient/federationtypes.go:RespSendJoin.GetStateEvents", "fclient/federationtypes.go:RespSendJoin.MarshalJSON", "fclient/federationtypes.go:RespStateIDs.GetAuthEventIDs", "fclient/federationtypes.go:RespStateIDs.GetStateEventIDs", "fclient/federationtypes.go:RespState.GetAuthEvents", "fclient/federationtypes.go:RespState.GetStateEvents", "fclient/federationtypes.go:RespState.MarshalJSON", "fclient/federationtypes.go:RespUserDevices.UnmarshalJSON", "fclient/federationtypes.go:.NewMSC2836EventRelationshipsRequest", "fclient/request.go:FederationRequest.Content", "fclient/request.go:FederationRequest.Destination", "fclient/request.go:FederationRequest.HTTPRequest", "fclient/request.go:FederationRequest.Method", "fclient/request.go:FederationRequest.Origin", "fclient/request.go:FederationRequest.RequestURI", "fclient/request.go:FederationRequest.SetContent", "fclient/request.go:FederationRequest.Sign", "fclient/request.go:FederationRequest.checkFieldsUTF8", "fclient/request.go:.NewFederationRequest", "fclient/request.go:.ParseAuthorization", "fclient/request.go:.VerifyHTTPRequest", "fclient/request.go:.isSafeInHTTPQuotedString", "fclient/request.go:.readHTTPRequest", "json.go:EventJSONs.TrustedEvents", "json.go:EventJSONs.UntrustedEvents", "json.go:.CanonicalJSON", "json.go:.CanonicalJSONAssumeValid", "json.go:.CompactJSON", "json.go:.EnforcedCanonicalJSON", "json.go:.NewEventJSONsFromEvents", "json.go:.SortJSON", "json.go:.compactUnicodeEscape", "json.go:.isNegativeZeroLiteral", "json.go:.noVerifyCanonicalJSON", "json.go:.readHexDigits", "json.go:.sortJSONArray", "json.go:.sortJSONObject", "json.go:.sortJSONValue", "json.go:.verifyEnforcedCanonicalJSON", "keys.go:ServerKeys.MarshalJSON", "keys.go:ServerKeys.PublicKey", "keys.go:ServerKeys.UnmarshalJSON", "keys.go:.CheckKeys", "keys.go:.checkVerifyKeys", "signing.go:.ListKeyIDs", "signing.go:.SignJSON", "signing.go:.VerifyJSON", "signing.go:.checkStrictJSON", "signing.go:.checkStrictString", "spec/senderid.go:SenderID.IsPseudoID", "spec/senderid.go:SenderID.IsUserID", "spec/senderid.go:SenderID.RawBytes", "spec/senderid.go:SenderID.ToPseudoID", "spec/senderid.go:SenderID.ToUserID", "spec/senderid.go:.SenderIDFromPseudoIDKey", "spec/senderid.go:.SenderIDFromUserID", "stateresolutionv2.go:.HeaderedReverseTopologicalOrdering", "stateresolutionv2.go:.ResolveStateConflictsV2", "stateresolutionv2.go:.ResolveStateConflictsV2New", "stateresolutionv2.go:.ReverseTopologicalOrdering", "stateresolutionv2.go:.creatorsFromCreateEventOrNone", "stateresolutionv2.go:.eventMapFromEvents", "stateresolutionv2.go:.getCreateEvent", "stateresolutionv2.go:.isControlEvent", "stateresolutionv2.go:.kahnsAlgorithmUsingAuthEvents", "stateresolutionv2.go:.kahnsAlgorithmUsingPrevEvents", "stateresolutionv2.go:.newPDUSet", "stateresolutionv2.go:stateResolverV2.applyEvents", "stateresolutionv2.go:stateResolverV2.authAndApplyEvents", "stateresolutionv2.go:stateResolverV2.calculateAuthDifference", "stateresolutionv2.go:stateResolverV2.calculateAuthDifferenceNew", "stateresolutionv2.go:stateResolverV2.calculateFullAuthChainAndConflictedSubgraph", "stateresolutionv2.go:stateResolverV2.createPowerLevelMainline", "stateresolutionv2.go:stateResolverV2.getFirstPowerLevelMainlineEvent", "stateresolutionv2.go:stateResolverV2.getPowerLevelFromAuthEvents", "stateresolutionv2.go:stateResolverV2.mainlineOrdering", "stateresolutionv2.go:stateResolverV2.reverseTopologicalOrdering", "stateresolutionv2.go:stateResolverV2.wrapOtherEventsForSort", "stateresolutionv2.go:stateResolverV2.wrapPowerLevelEventsForSort"]
 
 end VPins.C18
